@@ -142,6 +142,8 @@ def rule_impl(job):
         try:
             b = impl.Built(case)
 
+            falsy_head = case.get('falsy_head')
+
             @symbol
             @dataclass(eq=False)
             class Vw:
@@ -149,6 +151,14 @@ def rule_impl(job):
                 f0: object = None
                 f1: object = None
                 f2: object = None
+                # case['falsy_head']: the constructed class is FALSY as an object (a container-like view with no
+                # members, or an explicit __bool__): an inferred instance is a value, not a condition
+                if falsy_head == 'len':
+                    def __len__(self):
+                        return 0
+                elif falsy_head == 'bool':
+                    def __bool__(self):
+                        return False
             nargs_ = node_args(case)
 
             def conclusion(tag):
@@ -210,6 +220,10 @@ def rule_impl(job):
                 with ctx():
                     made = list(q.evaluate())
                 outs.append([render(v) for v in made])
+                if len({id(v) for v in made}) != len(made) or any(id(v) in known_ for v in made):
+                    # one NEW instance per satisfying binding: the same object yielded twice, or an instance that existed
+                    # before this evaluation
+                    outs[-1].append('SAME-INSTANCE-YIELDED-TWICE-OR-NOT-NEW')
                 # every instance CONSTRUCTED by this evaluation (registered with the class), yielded or not
                 built.append([render(o) for o in _instances(Variable, Vw) if id(o) not in known_])
             res['impl'][key] = {'outs': outs, 'built': built}
@@ -407,6 +421,14 @@ def judge_rules(report, cases, results, lines, findings, pid, nontrivial, check_
                         import collections
                         cb, cw = collections.Counter(built), collections.Counter(want)
                         extra = sorted(k for k in cb if cb[k] > cw[k])
+                        if not extra and key.startswith('off') and cb != cw:
+                            # without the result cache nothing can be re-used: exactly one construction per instance
+                            what = (f'fewer instances were constructed than the reference prescribes ({key}, evaluation '
+                                    f'{ev + 1}): an instance was re-used for another binding')
+                            report.violations.append((what, {'what': what, 'case': case, 'case_sexp': rule_sexp(case),
+                                                             'expected': want, 'observed': obs, 'constructed': sorted(built),
+                                                             'shape': rule_shape(case['rule'])}))
+                            break
                         if extra:
                             what = (f'instances were constructed for conclusions the ripple-down-rules reference does not '
                                     f'prescribe ({key}, evaluation {ev + 1})')
@@ -544,6 +566,8 @@ def c11(report, rng, tier, findings):
             case['nested_head'] = True
         if rng.random() < 0.25:
             case['pre_take'] = rng.randint(1, 3)
+        if rng.random() < 0.15:
+            case['falsy_head'] = rng.choice(('len', 'bool'))
         cases.append(case)
     report.rule = ("random rules infer(entity(T(f=e, ...), body)) over 1-2 variables: heads with variables, attribute expressions "
                    "(object-valued and value-valued, falsy values included) and constants as arguments in any order, every variable "
@@ -574,6 +598,8 @@ def c11(report, rng, tier, findings):
             report.count('nested_constructor_argument')
         if c.get('pre_take') is not None:
             report.count('after_an_abandoned_evaluation')
+        if c.get('falsy_head'):
+            report.count('head_class_whose_instances_are_falsy')
         c['direct_head'] = form(c) == 'direct'
         c['tag_last'] = int(c['id'][1:]) % 3 != 0
     results = pmap(rule_impl, [(c, {'caching': (False, True), 'evals': 2, 'ambients': (None, 'query', 'rule')})
